@@ -109,6 +109,13 @@ CmpReasons(ev) ==
          /\ o.lt = (va < vb) /\ o.le = (va <= vb) /\ o.gt = (va > vb) /\ o.ge = (va >= vb)
          /\ o.max_is_b = ((va <= vb) \/ ka = kb)), "comparison-wrong")
 
+\* C11: the components returned by Graph::scc() for the current graph (members 1..gn)
+SccReasons(ev) ==
+  IF ev.rt = "fail" THEN <<"failure">>
+  ELSE IF \E a \in 1..Len(ev.comps) : \E b \in 1..Len(ev.comps[a]) : ~InGraph(ev.comps[a][b])
+  THEN <<"malformed-result">>
+  ELSE When(~IsSccPartition(Plain(out, inn), 1..gn, ev.comps), "not-the-scc-partition")
+
 TNext ==
   /\ l <= Len(Rec)
   /\ l' = l + 1
@@ -116,7 +123,8 @@ TNext ==
      IF ev.ev = "graph"
      THEN /\ out' = [n \in Nodes |-> ev.out[n]] /\ inn' = [n \in Nodes |-> ev.inn[n]]
           /\ nval' = [n \in Nodes |-> ev.nval[n]] /\ gn' = ev.n /\ nbad' = nbad
-     ELSE LET v == IF ev.ev = "cmp" THEN CmpReasons(ev) ELSE QueryReasons(ev) IN
+     ELSE LET v == IF ev.ev = "cmp" THEN CmpReasons(ev)
+                   ELSE IF ev.ev = "scc" THEN SccReasons(ev) ELSE QueryReasons(ev) IN
           /\ IF v = <<>> THEN TRUE ELSE PrintT(<<"REJECT", l, v>>)
           /\ nbad' = IF v = <<>> THEN nbad ELSE nbad + 1
           /\ UNCHANGED <<out, inn, nval, gn>>
